@@ -11,7 +11,7 @@ other declarations (`<![if x]>`) and processing instructions. `emit` is the stre
    decimal reference `&#0…0N;` or a hexadecimal reference `&#x0…0H;` / `&#X…;` (a `charref` callback carrying the
    text between `&#` and `;`) with any number of leading zeros and digits in either case, or as a named reference
    `&name;` (an `entityref` callback);
- * the keyword of a doctype / CDATA section is written in upper or lower case;
+ * every letter of the keyword of a doctype / CDATA section (`DOCTYPE`, `CDATA`) is written in upper or lower case;
  * the position `(line, col)` of every start tag is whatever in-tag whitespace, quoting and the text before it
    make it (the tokenizer reports it with the callback: `getpos()`).
 
@@ -69,7 +69,7 @@ structure Choices where
   void : Path → VoidSp                -- spelling of the void element at this path
   pos : Path → Nat × Nat              -- `(line, col)` of the start tag of the element at this path
   char : Path → Nat → CharSp          -- spelling of the i-th character of the text at this path
-  kwUpper : Path → Bool               -- `DOCTYPE`/`CDATA[` (true) or `doctype`/`cdata[` (false)
+  kwCase : Path → Nat → Bool          -- is the i-th letter of the keyword `DOCTYPE` / `CDATA` written in upper case?
 
 /-! ### spelling of references -/
 
@@ -103,13 +103,19 @@ def emitChars (sp : Nat → CharSp) : Nat → PStr → PStr → List SEv
     | .hex ux ud z => flushLit cur ++ .charref (hexName ux ud z ch) :: emitChars sp (i + 1) [] rest
     | .named nm => flushLit cur ++ .entityref nm :: emitChars sp (i + 1) [] rest
 
-def kwDoctype (up : Bool) : PStr :=
-  if up then [68, 79, 67, 84, 89, 80, 69, 32] else [100, 111, 99, 116, 121, 112, 101, 32]     -- "DOCTYPE " / "doctype "
-def kwCData (up : Bool) : PStr :=
-  if up then [67, 68, 65, 84, 65, 91] else [99, 100, 97, 116, 97, 91]                           -- "CDATA[" / "cdata["
+/-- an upper-case ASCII letter `u`, written in upper or lower case -/
+def cased (up : Bool) (u : Nat) : Nat := if up then u else u + 32
+
+/-- `DOCTYPE ` with its letters in the chosen cases (`<!DocType html>` is a doctype: html/parser.py compares
+    `rawdata[i:i+9].lower()`) -/
+def kwDoctype (m : Nat → Bool) : PStr :=
+  [cased (m 0) 68, cased (m 1) 79, cased (m 2) 67, cased (m 3) 84, cased (m 4) 89, cased (m 5) 80, cased (m 6) 69, 32]
+/-- `CDATA[` with its letters in the chosen cases (`_markupbase.parse_marked_section` lower-cases the keyword) -/
+def kwCData (m : Nat → Bool) : PStr :=
+  [cased (m 0) 67, cased (m 1) 68, cased (m 2) 65, cased (m 3) 84, cased (m 4) 65, 91]
 
 /-- the one callback of a special string -/
-def specialEv (k : Kind) (up : Bool) (s : PStr) : SEv :=
+def specialEv (k : Kind) (up : Nat → Bool) (s : PStr) : SEv :=
   match k with
   | .comment => .comment s
   | .cdata => .unknownDecl (kwCData up ++ s)
@@ -128,7 +134,7 @@ def emit (iv : Name → Bool) (c : Choices) : Path → WDoc → List SEv
       | .pair => [.starttag n a (c.pos p).1 (c.pos p).2, .endtag n]
     else .starttag n a (c.pos p).1 (c.pos p).2 :: (emitL iv c p 0 ks ++ [.endtag n])
   | p, .text s => emitChars (c.char p) 0 [] s
-  | p, .special k s => [specialEv k (c.kwUpper p) s]
+  | p, .special k s => [specialEv k (c.kwCase p) s]
 /-- … of the children of the node at path `p`, from the `i`-th on -/
 def emitL (iv : Name → Bool) (c : Choices) : Path → Nat → List WDoc → List SEv
   | _, _, [] => []
